@@ -317,6 +317,7 @@ pub fn corpus() -> Vec<String> {
         "foo(\n  a\n) local   y=2\nbar( y )\n".into(),
         "x = a - -b\ny = 1 .. x\nf(\"a\", b)\n".into(),
         "x = 1 -- last".into(),
+        "do\n  t[ [[a]] .. b ] = 1\n    u = { [ [=[a]=] .. b ] = 1 }\n  foo(a, function() return x, y end)\nend\n".into(),
     ]
 }
 
